@@ -376,10 +376,26 @@ def_radix!(octal, 8, b'o');
 def_radix!(hexadecimal, 16, b'x');
 
 fn lex_decimal_number(input: LexInput) -> InternalLexResult {
-    let parse_float = |input| {
+    fn parse_float(input: LexInput) -> InternalLexResult {
+        // A digit separator may not follow the decimal point (`1._2` is `1.` followed by `_2`).
+        // lexical 7.0.5 accepts it nonetheless (see the workaround in `lex_and_parse_number`), and
+        // on a long fraction its fast path trips one of its own debug assertions before we get the
+        // chance to correct the result. So end the literal at the point ourselves.
+        let integer_end = input
+            .find(|c: char| !(c.is_ascii_digit() || c == '_'))
+            .unwrap_or(input.len());
+        let (number, after_number) = if input.slice(integer_end..).starts_with("._") {
+            (
+                input.slice(..integer_end + 1),
+                Some(input.slice(integer_end + 1..)),
+            )
+        } else {
+            (input, None)
+        };
         let (input, float) = cut(lex_and_parse_number::<f64, { number_format(10, None) }>(
             &FLOAT_OPTIONS,
-        ))(input)?;
+        ))(number)?;
+        let input = after_number.unwrap_or(input);
 
         if !float.is_finite() {
             return Err(nom::Err::Failure(InternalLexError::from_kind(
@@ -389,7 +405,7 @@ fn lex_decimal_number(input: LexInput) -> InternalLexResult {
         }
 
         Ok((input, Token::Float(float)))
-    };
+    }
 
     if input.as_bytes().first() == Some(&b'.') {
         parse_float(input)
